@@ -276,6 +276,19 @@ def handle_guard(p):
                 stored = obj.to_dict().get(field)
             except AttributeError:      # Environment.to_dict() cannot serialise a wavelength carried by a numpy scalar
                 stored = getattr(obj, "_" + field)
+        elif path == "fromdict":
+            # <Class>.from_dict({...}): how a detector saved to a file is read back
+            D, G, C = classes(det)
+            if cls == "Geometry":
+                obj = G.from_dict({**sec["geometry"], field: x})
+            elif cls == "Environment":
+                raise ValueError("Environment.from_dict is the YAML path")
+            else:
+                kw = {**sec["characteristics"], field: x}
+                if field == "avalanche_gain" and x is None:
+                    kw["common_voltage"] = 2.0
+                obj = C.from_dict(kw)
+            stored = obj.to_dict().get(field)
         elif path == "yaml":
             sec[sec_name] = {**sec[sec_name], field: x}
             if field == "avalanche_gain" and x is None:
@@ -355,6 +368,28 @@ def handle_keys(p):
     ok_kind = ok_kind and type(cfg.running_mode).__name__ in [kinds[k] for k in used] \
         and type(cfg.detector).__name__ in [kinds[k] for k in used]
     return {"loaded": True, "used": used if ok_kind else used + ["wrong-kind"]}
+
+
+def handle_direct(p):
+    """Configuration(pipeline=..., **objects) with the given running-mode / detector objects built in Python"""
+    from pyxel.configuration import Configuration
+
+    kw = {}
+    for k in p["given"]:
+        if k in ("exposure", "observation", "calibration"):
+            kw[k] = py_mode(k, minimal_mode(k))
+        else:
+            kw[k] = py_detector(k.split("_")[0], base_sections(k.split("_")[0]))
+    pipeline = py_pipeline(empty_pipeline())
+    try:
+        cfg = Configuration(pipeline=pipeline, **kw)
+    except ValueError as ex:
+        return {"accepted": False, "exc": "ValueError", "msg": str(ex)[:200]}
+    except Exception as ex:  # noqa: BLE001
+        return {"error": type(ex).__name__, "msg": str(ex)[:300]}
+    ok = all(getattr(cfg, k) is kw[k] for k in kw) and (not kw or (
+        any(cfg.running_mode is kw[k] for k in kw) and any(cfg.detector is kw[k] for k in kw)))
+    return {"accepted": True, "holds_given": bool(ok)}
 
 
 # ------------------------------------------------------------------------------------------ settings
@@ -776,6 +811,8 @@ def handle(p):
         return handle_guard(p)
     if k == "keys":
         return handle_keys(p)
+    if k == "direct":
+        return handle_direct(p)
     if k == "settings":
         return handle_settings(p)
     if k == "sweeprun":
